@@ -71,15 +71,21 @@ def lake_build(targets=("ShapeVerif", "driver")):
     return rc == 0, out, sorted(set(failed))
 
 
+def props_modules(pid):
+    """Props/<pid>.lean and its continuation files Props/<pid>b.lean, Props/<pid>c.lean, …"""
+    d = os.path.join(LEAN, "ShapeVerif", "Props")
+    return sorted(f[:-5] for f in os.listdir(d) if re.fullmatch(re.escape(pid) + r"[a-z]?\.lean", f))
+
+
 def props_theorems(pid):
-    """names of the theorems stated in Props/<pid>.lean"""
-    path = os.path.join(LEAN, "ShapeVerif", "Props", f"{pid}.lean")
-    if not os.path.exists(path):
-        return []
-    body = strip_comments(open(path).read())
-    ns = re.findall(r"^namespace\s+(\S+)", body, flags=re.M)
-    prefix = (ns[0] + ".") if ns else ""
-    return [prefix + m for m in re.findall(r"^theorem\s+(\S+)", body, flags=re.M)]
+    """names of the theorems stated in the Props files of a property"""
+    out = []
+    for mod in props_modules(pid):
+        body = strip_comments(open(os.path.join(LEAN, "ShapeVerif", "Props", mod + ".lean")).read())
+        ns = re.findall(r"^namespace\s+(\S+)", body, flags=re.M)
+        prefix = (ns[0] + ".") if ns else ""
+        out += [prefix + m for m in re.findall(r"^theorem\s+(\S+)", body, flags=re.M)]
+    return out
 
 
 def audit(pid):
@@ -90,7 +96,8 @@ def audit(pid):
     os.makedirs(os.path.join(LEAN, ".audit"), exist_ok=True)
     src = os.path.join(LEAN, ".audit", f"Audit_{pid}.lean")
     with open(src, "w") as f:
-        f.write(f"import ShapeVerif.Props.{pid}\n")
+        for mod in props_modules(pid):
+            f.write(f"import ShapeVerif.Props.{mod}\n")
         for n in names:
             f.write(f"#print axioms {n}\n")
     rc, out = sh(f"lake env lean {src}", cwd=LEAN, timeout=900)
